@@ -165,11 +165,8 @@ fn tree_lexists(state: &RefCell<SystemState>, cwd: &str, path: &str, depth: usiz
     for (k, (_, name)) in real.iter().enumerate() {
         let last = k + 1 == real.len() && !trailing;
         let (cur, cur_path) = stack.last().cloned().unwrap();
-        // the current node must be a directory (follow a link to find out)
-        let cur = match resolve_dir(state, &cur, &cur_path, depth) {
-            Some(c) => c,
-            None => return false,
-        };
+        // `.` and `..` are resolved the way the virtual file system resolves them: on the path text,
+        // without asking whether the node before them is a directory (see notes/C05.md)
         if *name == "." {
             continue;
         }
@@ -179,6 +176,11 @@ fn tree_lexists(state: &RefCell<SystemState>, cwd: &str, path: &str, depth: usiz
             }
             continue;
         }
+        // the current node must be a directory (follow a link to find out)
+        let cur = match resolve_dir(state, &cur, &cur_path, depth) {
+            Some(c) => c,
+            None => return false,
+        };
         let child = {
             let b = cur.borrow();
             let FileBody::Directory { files } = &b.body else { return false };
@@ -194,9 +196,9 @@ fn tree_lexists(state: &RefCell<SystemState>, cwd: &str, path: &str, depth: usiz
         stack.push((child, child_path));
     }
     let _ = n;
-    // trailing slash or empty path: the final node must be (a link to) a directory
+    // trailing slash: the final node must be (a link to) a directory; trailing `.`/`..`: it is there
     let (cur, cur_path) = stack.last().cloned().unwrap();
-    resolve_dir(state, &cur, &cur_path, depth).is_some()
+    !trailing || resolve_dir(state, &cur, &cur_path, depth).is_some()
 }
 
 /// `node` (located at `path`) as a directory, following symbolic links
